@@ -883,7 +883,7 @@ func ruleLoop(c *chk.Ctx) {
 	var conn *ssa.Function
 	var connGo *ssa.Go
 	var goBodyFn *ssa.Function
-	ir.Instrs(loop, func(ins ssa.Instruction) {
+	c.P.ExtInstrs(loop, func(ins ssa.Instruction) {
 		if g, ok := ins.(*ssa.Go); ok {
 			if b := goBody(c, g); b != nil {
 				for _, h := range c.P.Ext(b) {
@@ -912,7 +912,7 @@ func ruleLoop(c *chk.Ctx) {
 			if !ok {
 				return
 			}
-			if ir.NormCell(call.Call.Value) == ssa.Value(newSvcParam) {
+			if ir.NormCell(call.Call.Value) == ssa.Value(newSvcParam) || c.P.Canon(call.Call.Value) == ssa.Value(newSvcParam) {
 				if f == loop {
 					inLoopBody = true
 				} else {
@@ -1069,33 +1069,51 @@ func ruleLoop(c *chk.Ctx) {
 		}
 	})
 	c.Check(okStop, "PAIR.loop", conn, "context end stops the server", conn.Pos(), "a watcher on a child of ctx (cancel deferred) calls Stop on this connection's server on every wake-up path", "no watcher goroutine stops this connection's server on every path after its context ends (a select that can take a branch without Stop leaves the server running when the parent context ended)")
-	// D6: error mapping
+	// D6: error mapping: every way Loop returns a value (looking through phis and through a private
+	// helper that computes the result) is nil under IsErrClosing, or the accepter's own error
+	// under ¬IsErrClosing
 	okMap := false
-	for _, r := range ir.Returns(loop) {
-		v := ir.ReturnResult(r, 0)
-		if phi, ok := v.(*ssa.Phi); ok {
-			nilOnClosing, errOtherwise := false, false
-			for i, e := range phi.Edges {
-				ks := ir.EdgeConds(phi.Block().Preds[i], phi.Block())
-				closing, notClosing := false, false
-				for _, cd := range ks {
-					if call, ok := cd.V.(*ssa.Call); ok && call.Call.StaticCallee() != nil && call.Call.StaticCallee().Name() == "IsErrClosing" {
-						if cd.Truth {
-							closing = true
-						} else {
-							notClosing = true
-						}
+	{
+		type row struct {
+			v     ssa.Value
+			conds []ir.Cond
+		}
+		var rows []row
+		var expand func(v ssa.Value, conds []ir.Cond, depth int)
+		expand = func(v ssa.Value, conds []ir.Cond, depth int) {
+			if phi, ok := v.(*ssa.Phi); ok && depth < 4 {
+				for i, e := range phi.Edges {
+					expand(e, append(append([]ir.Cond{}, conds...), ir.EdgeConds(phi.Block().Preds[i], phi.Block())...), depth+1)
+				}
+				return
+			}
+			rows = append(rows, row{v, conds})
+		}
+		for _, r := range effectiveReturns(c, loop, 0) {
+			expand(ir.ReturnResult(r, 0), c.P.CondsWithin(r, loop), 0)
+		}
+		nilOnClosing, errOtherwise, other := false, false, false
+		for _, rw := range rows {
+			closing, notClosing := false, false
+			for _, cd := range rw.conds {
+				if call, ok := cd.V.(*ssa.Call); ok && call.Call.StaticCallee() != nil && call.Call.StaticCallee().Name() == "IsErrClosing" {
+					if cd.Truth {
+						closing = true
+					} else {
+						notClosing = true
 					}
 				}
-				if ir.IsNilConst(e) && closing {
-					nilOnClosing = true
-				}
-				if accept != nil && ir.IsExtractOf(e, accept, 1) && notClosing {
-					errOtherwise = true
-				}
 			}
-			okMap = nilOnClosing && errOtherwise
+			switch {
+			case ir.IsNilConst(rw.v) && closing:
+				nilOnClosing = true
+			case accept != nil && ir.IsExtractOf(c.P.Canon(rw.v), accept, 1) && notClosing:
+				errOtherwise = true
+			default:
+				other = true
+			}
 		}
+		okMap = nilOnClosing && errOtherwise && !other
 	}
 	c.Check(okMap, "PAIR.loop", loop, "accept error mapping", loop.Pos(), "Loop returns nil exactly when the accept error IsErrClosing, and the accepter's error otherwise", "Loop does not return nil exactly for closed-listener errors and the accepter's own error otherwise")
 	// netAccepter: every error it returns is the listener's Accept error
